@@ -51,6 +51,28 @@ Sign(c, hf, sk, m, a) ==
     IN [ok |-> ~BIsZero(sk) /\ BLt(sk, c.n) /\ ~BIsZero(k0),
         r |-> R.x, s |-> BAddMod(k, BMulMod(e, d, c.n), c.n), e |-> e, k0 |-> k0]
 
+\* Sign-to-contract (btclib's own scheme and tags; ssa.py / commit_nonce.py state it): the committed value is hashed into the auxiliary data, the nonce
+\* BIP340 derives from that -- normalised to its even-y point R, the receipt -- is moved by the tweak T = hash(R || value), taken as the nonce derivation
+\* takes a candidate: the leftmost nlen bits, hashed again while out of 1..n-1; the signature is BIP340's over the moved nonce
+TH(hf, tag, m) == LET t == H(hf, Utf8(tag)) IN H(hf, t \o t \o m)
+RECURSIVE S2CTweakFrom(_, _, _)
+S2CTweakFrom(hf, t, n) == LET v == Bits2Int(t, n) IN IF ~BIsZero(v) /\ BLt(v, n) THEN v ELSE S2CTweakFrom(hf, TH(hf, "s2c/bip340/point", t), n)
+S2CTweak(c, hf, R, value) == S2CTweakFrom(hf, TH(hf, "s2c/bip340/point", SecCompressed(c, R) \o value), c.n)
+S2CSign(c, hf, sk, m, a, value) ==
+    LET base == Sign(c, hf, sk, m, TH(hf, "s2c/bip340/data", a \o value))
+        P    == RMulG(c, sk)
+        d    == IF HasEvenY(P) THEN sk ELSE BSub(c.n, sk)
+        R0   == RMulG(c, base.k0)
+        kn   == IF HasEvenY(R0) THEN base.k0 ELSE BSub(c.n, base.k0)
+        R    == RMulG(c, kn)                          \* the receipt
+        k1   == BAddMod(kn, S2CTweak(c, hf, R, value), c.n)
+        W    == RMulG(c, k1)
+        k    == IF HasEvenY(W) THEN k1 ELSE BSub(c.n, k1)
+        e    == ChallengeE(c, hf, W.x, P.x, m)
+    IN [ok |-> base.ok /\ ~BIsZero(k1), r |-> W.x, s |-> BAddMod(k, BMulMod(e, d, c.n), c.n), receipt |-> R]
+\* the opening: W = R + T G has the signature's r as its abscissa
+S2COpens(c, hf, r, R, value) == LET W == ECR!Add(c, R, RMulG(c, S2CTweak(c, hf, R, value))) IN ~W.inf /\ W.x = r
+
 \* Verification of (r, s) for the x-only key x and message m
 Verify(c, hf, x, m, r, s) ==
     LET P == LiftX(c, x) IN
